@@ -46,6 +46,12 @@ def setup():
     r = core.run_mc("SelfTest", workers=2, timeout=600, cache=False)
     if not r["ok"]:
         raise core.ToolError("spec self-tests failed: " + r["output_tail"])
+    # warm the Step-D cache (models that depend only on spec/)
+    for m in ("MC_Crc", "MC_ModeAC", "MC_CPR"):
+        r = core.run_mc(m, workers=8, timeout=3000, xmx="8g")
+        if not r["ok"]:
+            raise core.ToolError(f"{m} fails: {r['violated']}")
+    core.build_apps()
     print("setup ok")
     return 0
 
